@@ -28,6 +28,7 @@ def gen_cases(tier, seed):
                       "callbacks": bool(k % 4 == 1), "extra_metric": bool(k % 5 == 2), "test": bool(k % 3 == 1), "leftover": int(rng.integers(0, 2)),
                       "extra_param": bool(k % 4 == 2), "premode": [None, "sub-eval", "all-eval", None][k % 4],
                       "peek": bool(k % 5 == 1), "callback_leaves_eval": bool(k % 6 == 3), "list_loader": bool(k % 7 == 4),
+                      "nested": bool(k % 3 == 0), "stale_grads": bool(k % 4 == 3),
                       "seed": int(rng.integers(2 ** 31))})
     return cases
 
@@ -47,13 +48,26 @@ def run_case(ns, ctx, c):
     layers = [nn.Linear(F_, 6), nn.BatchNorm1d(6), nn.ReLU(), nn.Dropout(0.25), nn.Linear(6, out_dim)]
     if mode == "binary":
         layers.append(nn.Sigmoid())
+    if c.get("nested"):
+        # the stochastic / stateful layers sit two and three levels below the root
+        layers = [layers[0], nn.Sequential(layers[1], layers[2], nn.Sequential(layers[3]))] + layers[4:]
     model = nn.Sequential(*layers)
+
+    def descendants(m, acc=None):
+        acc = [] if acc is None else acc
+        for s_ in m.submodules():
+            if not any(s_ is q for q in acc):
+                acc.append(s_)
+                descendants(s_, acc)
+        return acc
     crit = {"multi-class": nn.CrossEntropyLoss(), "binary": nn.BCELoss(), "categorical": nn.MSELoss()}[mode]
     offset = nn.Parameter(T(np.full((2,), 0.5, dtype=np.float32), requires_grad=True))       # a learnable tensor of the loss, not part of the model
     opt_params = model.parameters() + ([offset] if c.get("extra_param") else [])
     opt = getattr(ns.optim, c["opt"])(opt_params, lr=0.05)
     if c.get("premode") == "sub-eval":
-        model.submodules()[3].eval(); model.submodules()[1].eval()        # a model whose parts were left in eval mode before fit
+        for m_ in descendants(model):                                    # a model whose parts were left in eval mode before fit
+            if isinstance(m_, (nn.Dropout, nn.BatchNorm1d)):
+                m_.eval()
     elif c.get("premode") == "all-eval":
         model.eval()
 
@@ -90,7 +104,7 @@ def run_case(ns, ctx, c):
         val_loader = DataLoader(Xv, yv, c["bs"], transform=transform)
 
     events = []
-    modules = [model] + list(model.submodules())
+    modules = [model] + descendants(model)
 
     def state_digest():
         h = hashlib.sha256()
@@ -116,16 +130,27 @@ def run_case(ns, ctx, c):
 
     # ---- attach the trace
     o_step, o_zero = opt.step, opt.zero_grad
-    opt.step = lambda: (rec("step:before", gdigest=grads_digest()), o_step(), rec("step"))[-1]
-    opt.zero_grad = lambda: (o_zero(), rec("zero_grad"))[-1]
+    # (the tracing wrappers pass every argument through: an implementation is free to add optional parameters)
+    opt.step = lambda *a_, **k_: (rec("step:before", gdigest=grads_digest()), o_step(*a_, **k_), rec("step"))[-1]
+    opt.zero_grad = lambda *a_, **k_: (o_zero(*a_, **k_), rec("zero_grad"))[-1]
     o_train, o_eval = model.train, model.eval
-    object.__setattr__(model, "train", lambda: (o_train(), rec("train"))[0])
-    object.__setattr__(model, "eval", lambda: (o_eval(), rec("eval"))[0])
+
+    def t_train(*a_, **k_):
+        r_ = o_train(*a_, **k_)
+        rec("train" if model.training else "eval")
+        return r_
+
+    def t_eval(*a_, **k_):
+        r_ = o_eval(*a_, **k_)
+        rec("train" if model.training else "eval")
+        return r_
+    object.__setattr__(model, "train", t_train)
+    object.__setattr__(model, "eval", t_eval)
     o_fwd = model.forward
 
-    def fwd(x):
+    def fwd(x, *a_, **k_):
         rec("forward:before", n=int(x.shape[0]))
-        y = o_fwd(x)
+        y = o_fwd(x, *a_, **k_)
         rec("forward", out=np.array(y.data), requires_grad=bool(y.requires_grad))
         return y
     object.__setattr__(model, "forward", fwd)
@@ -139,9 +164,9 @@ def run_case(ns, ctx, c):
             return l
     o_backward = ns.Tensor.backward
 
-    def bw(self_t, grad=None):
+    def bw(self_t, *a_, **k_):
         rec("backward:before", grads_clear=all(p._grad is None or not np.any(p._grad) for p in opt_params))
-        r = o_backward(self_t, grad) if grad is not None else o_backward(self_t)
+        r = o_backward(self_t, *a_, **k_)
         rec("backward", gdigest=grads_digest())
         return r
     ns.Tensor.backward = bw
@@ -150,6 +175,16 @@ def run_case(ns, ctx, c):
     if c["evaluator"]:
         extra = (lambda yt, yp: [("f1", np.float64(0.25))]) if c["extra_metric"] else None
         ev = Evaluator(epoch_callback=extra, step_callback=None, accuracy=True, mode=mode)
+    if c.get("stale_grads"):
+        # the caller checked a forward/backward by hand before fit: parameters hold gradients when training starts
+        xb_, yb_ = transform(None, Xtr[:c["bs"]], ytr[:c["bs"]])
+        was_ = [bool(m_.training) for m_ in modules]
+        model.eval()
+        l_ = (model(xb_) ** 2).sum()
+        o_backward(l_)
+        for m_, w_ in zip(modules, was_):
+            m_.training = w_
+        del events[:]
     tr = Trainer(model, sg)
     tr.compile(TracedLoss(), opt, ev)
     viol = []
